@@ -1317,7 +1317,11 @@ func runNilValReturn(meta *common.Meta, seed int64, outDir string) {
 		}
 		bodies = append(bodies, fmt.Sprintf("({| nvr_single_return := %v; nvr_op_is_eq := %v; nvr_y_is_nil := %v; nvr_x := %s; nvr_results := [%s] |}, %s)",
 			single, cond.Op == token.EQL, yNil, xt, strings.Join(results, "; "), coqfmt.StrList(c.msgs)))
-		idx = append(idx, fmt.Sprintf("if %s { %v; return %v } => %q", c.cond, c.pre, c.rets, c.msgs))
+		if c.body != "" {
+			idx = append(idx, fmt.Sprintf("%s => %q", strings.Join(strings.Fields(c.body), " "), c.msgs))
+		} else {
+			idx = append(idx, fmt.Sprintf("%s; if %s { %v; return %v } => %q", c.pro, c.cond, c.pre, c.rets, c.msgs))
+		}
 	}
 	common.WriteFile(filepath.Join(outDir, "cases_c12_nilvalreturn.v"),
 		"From GC Require Import Base Model_Expr Model_BoolSimp Model_Claims.\n"+
